@@ -1,1 +1,418 @@
-/-! # C12 — property theorems (to be filled in) -/
+import JokerVerif.Lemmas.StoreLemmas
+/-!
+# C12 — sample files round-trip exactly; appends concatenate; incompatible appends are refused without
+altering the file; batch reads return exactly the rows / columns / units asked for
+
+Property theorems only (model: `Model/Store.lean`, helper lemmas: `Lemmas/StoreLemmas.lean`).  All statements
+are for every table (any number of columns and rows, any headers, any metadata), every history of writes and
+every selection; the value type `α` is arbitrary (`Float` when executed by the driver).
+-/
+namespace Store
+variable {α : Type}
+
+/-! ## Round trip -/
+
+/-- `read (write t ∅) = t`: writing to a path that does not exist (any flags; FITS without `append`) succeeds
+and reading gives back exactly the table — column names, order, dtypes, units, values, `t_ref`, `poly_trend`,
+`n_offsets`. -/
+theorem read_write_roundtrip (fmt : Fmt) (t : Table α) (ov ap : Bool) (h : fmt = .fits → ap = false) :
+    (write fmt none t ov ap).2 = .ok () ∧ read (write fmt none t ov ap).1 = .ok t := by
+  cases fmt with
+  | hdf5 => simp [write, read]
+  | fits => simp [write, read, h rfl]
+
+/-- the same over an existing file, for every replacing write (`overwrite=True`, with or without `append` for
+HDF5): the old content is gone, the new table is read back exactly -/
+theorem read_overwrite_roundtrip (fmt : Fmt) (s : State α) (t : Table α) (ap : Bool)
+    (h : fmt = .fits → ap = false) :
+    (write fmt s t true ap).2 = .ok () ∧ read (write fmt s t true ap).1 = .ok t := by
+  cases fmt with
+  | hdf5 => cases s <;> cases ap <;> simp [write, read]
+  | fits => cases s <;> simp [write, read, h rfl]
+
+/-- every successful write is either a replacement (read gives the table) or a compatible append to an
+existing HDF5 file (read gives old content followed by the table); nothing else can happen -/
+theorem read_after_write (fmt : Fmt) (s : State α) (t : Table α) (ov ap : Bool)
+    (hok : (write fmt s t ov ap).2 = .ok ()) :
+    read (write fmt s t ov ap).1 = .ok t ∨
+    ∃ f, s = some f ∧ fmt = .hdf5 ∧ ap = true ∧ ov = false ∧ compatible f t = true ∧
+      read (write fmt s t ov ap).1 = .ok (f.append t) := by
+  cases fmt with
+  | fits =>
+    left
+    cases ap with
+    | true => simp [write] at hok
+    | false =>
+      cases s with
+      | none => simp [write, read]
+      | some f => cases ov <;> simp [write, read] at hok ⊢
+  | hdf5 =>
+    cases s with
+    | none => left; simp [write, read]
+    | some f =>
+      cases ap <;> cases ov <;> simp [write, read] at hok ⊢
+      by_cases hc : compatible f t = true
+      · right; simp [hc]
+      · simp [hc] at hok
+
+/-- a refused write (file exists, no `overwrite`, no `append`) leaves the file as it was -/
+theorem exists_no_change (fmt : Fmt) (f t : Table α) :
+    write fmt (some f) t false false = (some f, .error .exists) := by
+  cases fmt <;> simp [write]
+
+/-- FITS files cannot be appended to, and the attempt leaves the state as it was -/
+theorem fits_append_no_change (s : State α) (t : Table α) (ov : Bool) :
+    write .fits s t ov true = (s, .error .notImpl) := by
+  simp [write]
+
+/-! ## Appends concatenate -/
+
+/-- **Refinement to the list specification.**  For every history of writes (any mixture of plain writes,
+overwrites, appends, both flags; successful or refused) starting from "no file": the file equals the content
+denoted by the log `specRun` keeps — the list of tables written since the last replacing write, oldest first —
+the outcomes (ok / which error) agree call by call, and every table in the log was accepted against the first. -/
+theorem append_concat (fmt : Fmt) (ws : List (Table α × Bool × Bool)) :
+    writeRun fmt none ws = (content (specRun fmt [] ws).1, (specRun fmt [] ws).2) ∧
+    LogOK (specRun fmt [] ws).1 :=
+  writeRun_refines fmt ws [] trivial
+
+/-- … and the same from any reachable state (any log) -/
+theorem append_concat_from (fmt : Fmt) (log : Log α) (hlog : LogOK log) (ws : List (Table α × Bool × Bool)) :
+    writeRun fmt (content log) ws = (content (specRun fmt log ws).1, (specRun fmt log ws).2) ∧
+    LogOK (specRun fmt log ws).1 :=
+  writeRun_refines fmt ws log hlog
+
+/-- what a log denotes: the header (names, order, dtypes, units) and metadata of the first table, and column
+`i` holds the concatenation, in write order, of column `i` of every table of the log -/
+theorem content_is_concat (t₀ : Table α) (ts : List (Table α)) (h : LogOK (t₀ :: ts)) :
+    ∃ T, content (t₀ :: ts) = some T ∧ T.hdrs = t₀.hdrs ∧ T.md = t₀.md ∧
+      ∀ i, T.colVals i = (t₀ :: ts).flatMap (·.colVals i) := by
+  have s := foldl_append_spec ts t₀ (LogOK_hdrs h)
+  exact ⟨_, rfl, s.1, s.2.1, fun i => by simp [s.2.2 i]⟩
+
+/-- every table of an accepted log has the same header and metadata as the file, so the concatenation above is
+a concatenation of like columns -/
+theorem log_uniform (t₀ : Table α) (ts : List (Table α)) (h : LogOK (t₀ :: ts)) :
+    ∀ t ∈ ts, t.hdrs = t₀.hdrs ∧ t.md = t₀.md := by
+  intro t ht
+  have := (compatible_iff t₀ t).1 (h t ht)
+  exact ⟨this.1.symm, this.2.symm⟩
+
+/-- row view: the file stays well-formed (all columns equally long) and its number of rows is the sum of the
+rows of everything in the log -/
+theorem append_concat_rows (t₀ : Table α) (ts : List (Table α)) (h : LogOK (t₀ :: ts))
+    (hwf : ∀ t ∈ t₀ :: ts, t.WF) :
+    ∃ T, content (t₀ :: ts) = some T ∧ T.WF ∧ T.nRows = ((t₀ :: ts).map (·.nRows)).sum := by
+  have s := foldl_append_WF ts t₀ (LogOK_hdrs h) (hwf t₀ (by simp))
+    (fun t ht => hwf t (List.mem_cons_of_mem _ ht))
+  exact ⟨_, rfl, s.1, by simp [s.2]⟩
+
+/-- one compatible append: the rows of the new table come after the rows already there, cell by cell -/
+theorem append_cells (f t : Table α) (hc : compatible f t = true) (hf : f.WF) (i : Nat)
+    (hi : i < f.cols.length) (r : Nat) :
+    (write .hdf5 (some f) t false true) = (some (f.append t), .ok ()) ∧
+    ((f.append t).colVals i)[r]? =
+      if r < f.nRows then (f.colVals i)[r]? else (t.colVals i)[r - f.nRows]? := by
+  have hh := ((compatible_iff f t).1 hc).1
+  refine ⟨by simp [write, hc], ?_⟩
+  rw [append_colVals f t hh i, List.getElem?_append]
+  have hlen : (f.colVals i).length = f.nRows := by
+    simp only [Table.colVals, List.getElem?_eq_getElem hi]
+    exact hf _ (List.getElem_mem hi)
+  simp [hlen]
+
+/-- reads (of the table or of batches) never change the file: the state after a mixed history is the state
+after its writes alone -/
+theorem reads_do_not_write [Mul α] (fmt : Fmt) (conv : String → String → Option α) :
+    ∀ (ops : List (Op α)) (s : State α),
+      (run fmt conv s ops).1 =
+        (writeRun fmt s (ops.filterMap fun op => match op with
+          | .write t ov ap => some (t, ov, ap) | _ => none)).1
+  | [], s => rfl
+  | op :: ops, s => by
+    cases op with
+    | write t ov ap =>
+      have ih := reads_do_not_write fmt conv ops (write fmt s t ov ap).1
+      simp only [run, step, List.filterMap_cons, writeRun]
+      rcases hw : write fmt s t ov ap with ⟨s', r⟩
+      rw [hw] at ih
+      cases r <;> simpa using ih
+    | read =>
+      have ih := reads_do_not_write fmt conv ops s
+      simp only [run, step, List.filterMap_cons]
+      cases read s <;> simpa using ih
+    | batch q ch =>
+      have ih := reads_do_not_write fmt conv ops s
+      simp only [run, step, List.filterMap_cons]
+      cases readBatch (fun _ _ => ch) conv s q <;> simpa using ih
+
+/-! ## Incompatible appends are refused and change nothing -/
+
+/-- an append whose header (column names / order / dtypes / units) or metadata (`t_ref`, `poly_trend`,
+`n_offsets`) differs from the file's is refused, and the state is the old state -/
+theorem bad_append_no_change (f t : Table α) (h : f.hdrs ≠ t.hdrs ∨ f.md ≠ t.md) :
+    write .hdf5 (some f) t false true = (some f, .error .incompatible) := by
+  have hc : compatible f t = false := by
+    rcases h with h | h <;> simp [compatible, h]
+  simp [write, hc]
+
+/-- … in particular a table with an extra or a missing column -/
+theorem bad_append_column_count (f t : Table α) (h : f.cols.length ≠ t.cols.length) :
+    write .hdf5 (some f) t false true = (some f, .error .incompatible) :=
+  bad_append_no_change f t (.inl fun e => h (cols_length_of_hdrs e))
+
+/-- … a table that differs in the name, the unit or the dtype of some column position (this covers a renamed
+column and a different column order) -/
+theorem bad_append_column_differs (f t : Table α) (i : Nat)
+    (h : (f.cols[i]?).map (·.hdr) ≠ (t.cols[i]?).map (·.hdr)) :
+    write .hdf5 (some f) t false true = (some f, .error .incompatible) := by
+  refine bad_append_no_change f t (.inl fun e => h ?_)
+  have := congrArg (·[i]?) e
+  simpa [Table.hdrs, List.getElem?_map] using this
+
+/-- … and a table whose reference epoch, `poly_trend` or `n_offsets` differ (a missing epoch differs from
+every epoch) -/
+theorem bad_append_metadata (f t : Table α)
+    (h : f.md.tRef ≠ t.md.tRef ∨ f.md.polyTrend ≠ t.md.polyTrend ∨ f.md.nOffsets ≠ t.md.nOffsets) :
+    write .hdf5 (some f) t false true = (some f, .error .incompatible) := by
+  refine bad_append_no_change f t (.inr fun e => ?_)
+  rcases h with h | h | h <;> exact h (by rw [e])
+
+/-- conversely an append is accepted exactly when header and metadata agree -/
+theorem good_append (f t : Table α) (h : f.hdrs = t.hdrs ∧ f.md = t.md) :
+    write .hdf5 (some f) t false true = (some (f.append t), .ok ()) := by
+  simp [write, (compatible_iff f t).2 h]
+
+/-- after a refused append a read returns the old content -/
+theorem bad_append_then_read (f t : Table α) (h : f.hdrs ≠ t.hdrs ∨ f.md ≠ t.md) :
+    read (write .hdf5 (some f) t false true).1 = .ok f := by
+  rw [bad_append_no_change f t h]; rfl
+
+/-! ## Batch reads -/
+
+/-- **slice**: a successful `read_batch(file, cols, slice(a, b, st), units)` returns, for each requested
+column in the requested order, the stored values at exactly the rows of `range(n)[a:b:st]`, converted.  -/
+theorem readBatch_slice [Mul α] (choose : Nat → Nat → Option (List Nat)) (conv : String → String → Option α)
+    (t : Table α) (cols : List String) (a b st : Option Int) (units : List (String × String))
+    (out : List (List α))
+    (h : readBatch choose conv (some t) ⟨cols, .slice a b st, units⟩ = .ok out) :
+    ∃ step : Nat, 0 < step ∧ (st = none ∧ step = 1 ∨ st = some (step : Int)) ∧
+      out.length = cols.length ∧
+      ∀ (j : Nat) name, cols[j]? = some name →
+        ∃ col, out[j]? = some col ∧ IsBatchCol conv units t (sliceRows t.nRows a b step) name col := by
+  obtain ⟨rows, hres, hlen, hcols⟩ := readBatch_spec choose conv t _ out h
+  cases st with
+  | none =>
+    simp [resolve] at hres; subst hres
+    exact ⟨1, by decide, .inl ⟨rfl, rfl⟩, hlen, hcols⟩
+  | some k =>
+    simp only [resolve] at hres
+    split at hres
+    · rename_i hk
+      simp at hres; subst hres
+      exact ⟨k.toNat, by omega, .inr (by congr 1; omega), hlen, hcols⟩
+    · simp at hres
+
+/-- the rows of a slice are exactly `lo, lo+step, … < hi` (Python's clamped bounds), all valid row numbers, in
+increasing order; for step 1 they are the contiguous range `lo … hi−1` -/
+theorem slice_rows_exact (n : Nat) (a b : Option Int) (step : Nat) (hs : 0 < step) :
+    (∀ r, r ∈ sliceRows n a b step ↔
+      clampIdx n 0 a ≤ r ∧ r < clampIdx n n b ∧ (r - clampIdx n 0 a) % step = 0) ∧
+    (∀ r ∈ sliceRows n a b step, r < n) ∧
+    (sliceRows n a b step).Pairwise (· < ·) ∧
+    (step = 1 → sliceRows n a b step = List.range' (clampIdx n 0 a) (clampIdx n n b - clampIdx n 0 a)) :=
+  ⟨mem_sliceRows n a b step hs, sliceRows_lt n a b step hs, sliceRows_increasing n a b step hs,
+   fun h => h ▸ sliceRows_step_one n a b⟩
+
+/-- contiguous range on a column = the Python slice `vals[lo:hi]` of that column -/
+theorem slice_contiguous_values (vals : List α) (a b : Option Int) :
+    gather vals (sliceRows vals.length a b 1) =
+      some ((vals.drop (clampIdx vals.length 0 a)).take
+        (clampIdx vals.length vals.length b - clampIdx vals.length 0 a)) := by
+  rw [sliceRows_step_one]
+  apply gather_range'
+  have := clampIdx_le vals.length vals.length (Nat.le_refl _) b
+  have := clampIdx_le vals.length 0 (Nat.zero_le _) a
+  omega
+
+/-- **index array**: the rows are the given indices, in the given order, repeats kept (negative indices count
+from the end as in numpy); the result has one entry per index -/
+theorem readBatch_idx [Mul α] (choose : Nat → Nat → Option (List Nat)) (conv : String → String → Option α)
+    (t : Table α) (cols : List String) (l : List Int) (units : List (String × String))
+    (out : List (List α))
+    (h : readBatch choose conv (some t) ⟨cols, .idx l, units⟩ = .ok out) :
+    ∃ rows : List Nat, rows.length = l.length ∧
+      (∀ (k : Nat) i, l[k]? = some i → ∃ r, rows[k]? = some r ∧ r < t.nRows ∧
+        ((0 ≤ i ∧ i = (r : Int)) ∨ (i < 0 ∧ i + (t.nRows : Int) = (r : Int)))) ∧
+      out.length = cols.length ∧
+      ∀ (j : Nat) name, cols[j]? = some name →
+        ∃ col, out[j]? = some col ∧ IsBatchCol conv units t rows name col := by
+  obtain ⟨rows, hres, hlen, hcols⟩ := readBatch_spec choose conv t _ out h
+  simp only [resolve] at hres
+  split at hres
+  · rename_i rows' hr
+    simp at hres; subst hres
+    have hall := normAll_spec t.nRows l rows' hr
+    refine ⟨rows', hall.length_eq.symm, fun k i hk => ?_, hlen, hcols⟩
+    obtain ⟨r, hr', hR⟩ := hall.get k i hk
+    exact ⟨r, hr', normIdx_spec t.nRows i r hR⟩
+  · simp at hres
+
+/-- an index outside `-n … n-1` is refused -/
+theorem readBatch_idx_out_of_range [Mul α] (choose : Nat → Nat → Option (List Nat))
+    (conv : String → String → Option α) (t : Table α) (cols : List String) (l : List Int)
+    (units : List (String × String)) (i : Int) (hi : i ∈ l)
+    (hbad : (t.nRows : Int) ≤ i ∨ i < -(t.nRows : Int)) :
+    readBatch choose conv (some t) ⟨cols, .idx l, units⟩ = .error .index := by
+  have hnone : normAll t.nRows l = none := by
+    induction l with
+    | nil => simp at hi
+    | cons x xs ih =>
+      simp only [List.mem_cons] at hi
+      simp only [normAll]
+      rcases hi with rfl | hi
+      · have : normIdx t.nRows i = none := by
+          unfold normIdx
+          split
+          · split
+            · omega
+            · rfl
+          · split
+            · omega
+            · rfl
+        simp [this]
+      · rw [ih hi]
+        split <;> simp_all
+  simp [readBatch, resolve, hnone]
+
+/-- **random subset**: whatever the generator does, a successful read used `size` *distinct* valid rows — the
+map position ↦ row is injective — and returns them in the order drawn -/
+theorem readBatch_random [Mul α] (choose : Nat → Nat → Option (List Nat)) (conv : String → String → Option α)
+    (t : Table α) (cols : List String) (size : Nat) (units : List (String × String))
+    (out : List (List α))
+    (h : readBatch choose conv (some t) ⟨cols, .random size, units⟩ = .ok out) :
+    ∃ rows : List Nat, choose t.nRows size = some rows ∧ rows.length = size ∧ rows.Nodup ∧
+      (∀ r ∈ rows, r < t.nRows) ∧
+      (∀ (k₁ k₂ : Nat) r, rows[k₁]? = some r → rows[k₂]? = some r → k₁ = k₂) ∧
+      out.length = cols.length ∧
+      ∀ (j : Nat) name, cols[j]? = some name →
+        ∃ col, out[j]? = some col ∧ IsBatchCol conv units t rows name col := by
+  obtain ⟨rows, hres, hlen, hcols⟩ := readBatch_spec choose conv t _ out h
+  simp only [resolve] at hres
+  split at hres
+  · simp at hres
+  · split at hres
+    · rename_i idx hch
+      split at hres
+      · rename_i hv
+        simp at hres; subst hres
+        obtain ⟨h1, h2, h3⟩ := (validChoice_iff t.nRows size idx).1 hv
+        refine ⟨idx, hch, h1, h2, h3, ?_, hlen, hcols⟩
+        intro k₁ k₂ r hk1 hk2
+        obtain ⟨hl1, he1⟩ := List.getElem?_eq_some_iff.1 hk1
+        obtain ⟨hl2, he2⟩ := List.getElem?_eq_some_iff.1 hk2
+        exact (List.getElem_inj h2).1 (he1.trans he2.symm)
+      · simp at hres
+    · simp at hres
+
+/-- asking for more random rows than the file has is refused -/
+theorem readBatch_random_too_many [Mul α] (choose : Nat → Nat → Option (List Nat))
+    (conv : String → String → Option α) (t : Table α) (cols : List String) (size : Nat)
+    (units : List (String × String)) (h : t.nRows < size) :
+    readBatch choose conv (some t) ⟨cols, .random size, units⟩ = .error .value := by
+  simp [readBatch, resolve, h]
+
+/-- the contract asked of the generator is satisfiable for every request `size ≤ n`: drawing without
+replacement from `0 … n-1`, driven by any stream of raw draws, yields `size` distinct valid rows -/
+theorem draw_without_replacement_valid (draws : List Nat) (n size : Nat) (hs : size ≤ n)
+    (hd : size ≤ draws.length) :
+    ∃ rows, chooseFrom draws n size = some rows ∧ validChoice n size rows = true := by
+  have s := drawNoRepl_spec (draws.take size) (List.range n) List.nodup_range
+  refine ⟨_, rfl, (validChoice_iff n size _).2 ⟨?_, s.1, ?_⟩⟩
+  · rw [s.2.2 (by simp; omega)]
+    simp; omega
+  · intro i hi
+    simpa using s.2.1 i hi
+
+/-- **units**: the factor applied to a column is `conv stored_unit requested_unit` when the column is named in
+`units`, and the column is returned untouched (bit-identical) when it is not -/
+theorem batch_unit_conversion [Mul α] (conv : String → String → Option α) (units : List (String × String))
+    (h : ColHdr) (f : Option α) (hf : factorFor conv units h = .ok f) :
+    (units.lookup h.name = none ∧ f = none ∧ ∀ v : α, applyConv f v = v) ∨
+    (∃ target g, units.lookup h.name = some target ∧ conv h.unit target = some g ∧ f = some g ∧
+      ∀ v : α, applyConv f v = v * g) := by
+  unfold factorFor at hf
+  split at hf
+  · rename_i hl
+    simp at hf; subst hf
+    exact .inl ⟨hl, rfl, fun _ => rfl⟩
+  · rename_i target hl
+    split at hf
+    · rename_i g hg
+      simp at hf; subst hf
+      exact .inr ⟨target, g, hl, hg, rfl, fun _ => rfl⟩
+    · simp at hf
+
+/-- a unit that cannot be converted is refused -/
+theorem batch_unit_not_convertible [Mul α] (conv : String → String → Option α)
+    (units : List (String × String)) (h : ColHdr) (target : String)
+    (hl : units.lookup h.name = some target) (hc : conv h.unit target = none) :
+    factorFor conv units h = .error .units := by
+  simp [factorFor, hl, hc]
+
+/-- progress: on a well-formed file, a request whose selection resolves, whose columns exist and whose units
+are convertible is answered -/
+theorem readBatch_succeeds [Mul α] (choose : Nat → Nat → Option (List Nat)) (conv : String → String → Option α)
+    (t : Table α) (q : Query) (rows : List Nat) (hwf : t.WF)
+    (hsel : resolve choose t.nRows q.sel = .ok rows)
+    (hcols : ∀ name ∈ q.cols, ∃ c f, findCol t name = some c ∧ factorFor conv q.units c.hdr = .ok f) :
+    ∃ out, readBatch choose conv (some t) q = .ok out :=
+  readBatch_total choose conv t q rows hwf hsel hcols
+
+/-! ## Non-vacuity: concrete non-trivial instances -/
+
+section Examples
+
+private def hP : ColHdr := ⟨"P", "d", "float64"⟩
+private def hE : ColHdr := ⟨"e", "", "float64"⟩
+private def m0 : Meta := ⟨some "tcb:55000", 1, 0⟩
+private def tA : Table Int := ⟨[⟨hP, [10, 11, 12]⟩, ⟨hE, [1, 2, 3]⟩], m0⟩
+private def tB : Table Int := ⟨[⟨hP, [20, 21]⟩, ⟨hE, [4, 5]⟩], m0⟩
+/-- extra column -/
+private def tX : Table Int := ⟨[⟨hP, [30]⟩, ⟨hE, [6]⟩, ⟨⟨"ln_prior", "", "float64"⟩, [7]⟩], m0⟩
+/-- no reference epoch -/
+private def tN : Table Int := ⟨[⟨hP, [30]⟩, ⟨hE, [6]⟩], ⟨none, 1, 0⟩⟩
+
+private def convI : String → String → Option Int := fun a b =>
+  if a = b then some 1 else if a = "d" ∧ b = "h" then some 24 else none
+
+-- write, append, refused append (extra column / other epoch), append again: content is the concatenation
+example : (writeRun .hdf5 none [(tA, false, false), (tB, false, true), (tX, false, true), (tN, false, true),
+      (tB, false, true)]).2 = [.ok (), .ok (), .error .incompatible, .error .incompatible, .ok ()] := by
+  rfl
+example : ((writeRun .hdf5 none [(tA, false, false), (tB, false, true), (tX, false, true),
+      (tB, false, true)]).1.map fun T => (T.colVals 0, T.colVals 1)) =
+    some ([10, 11, 12, 20, 21, 20, 21], [1, 2, 3, 4, 5, 4, 5]) := by
+  rfl
+example : LogOK [tA, tB, tB] := by
+  intro t ht
+  simp at ht
+  rcases ht with rfl | rfl <;> decide
+example : tA.WF ∧ tB.WF := by
+  constructor <;> (intro c hc; simp [tA, tB] at hc; rcases hc with rfl | rfl <;> rfl)
+-- batch reads on the 5-row file: stepped slice with a negative start, repeated unsorted indices with a
+-- negative one, unit conversion d -> h on column P only, columns in the requested order
+example : readBatch (fun _ _ => none) convI (some (tA.append tB))
+    ⟨["e", "P"], .slice (some (-4)) none (some 2), [("P", "h")]⟩ = .ok [[2, 4], [264, 480]] := by rfl
+example : readBatch (fun _ _ => none) convI (some (tA.append tB))
+    ⟨["P"], .idx [3, 0, 0, -1], []⟩ = .ok [[20, 10, 10, 21]] := by rfl
+example : readBatch (chooseFrom [7, 7, 7]) convI (some (tA.append tB)) ⟨["P"], .random 3, []⟩ =
+    .ok [[12, 21, 11]] := by rfl
+example : readBatch (fun _ _ => some [1, 1, 2]) convI (some (tA.append tB)) ⟨["P"], .random 3, []⟩ =
+    .error .choice := by rfl
+example : readBatch (fun _ _ => none) convI (some tA) ⟨["P"], .slice none none none, [("P", "km")]⟩ =
+    .error .units := by rfl
+
+end Examples
+
+end Store
